@@ -578,9 +578,17 @@ def run(ctx: Ctx):
                 "boundaries, 1-3 chromosomes, chromosome on one side only, empty tables, filtered/permuted index). A "
                 "case is distinct by (operation, table, index labels, ranges, parameters, naming); non-trivial when "
                 "table and ranges are both non-empty.")
-    all_records = []
     mismatch = 0
     mismatch_samples = []
+
+    def judge(recs, sample_at=()):
+        """count, sample and have TLC judge one scope's records (then they are dropped: memory)"""
+        for rec in recs:
+            _count(ctx, rec)
+        for f in sample_at:
+            ctx.sample(recs[int(f * (len(recs) - 1))])
+        ctx.validate(TRACE, recs, batch=50000)
+
     for k, sc in enumerate(SCOPES[ctx.tier]):
         shards = sc.get("shards", 1)
         if shards > 1:      # DESIGN 8 C06/C07: the design check runs over the whole scope (no dump); the replay
@@ -596,17 +604,19 @@ def run(ctx: Ctx):
         groups = _groups_from_states(states, NAMINGS[sc["naming"]], sc["idx"])
         del states
         recs = _run_groups(ctx, groups)
+        del groups
         for rec in recs:
             exp = rec.pop("expect")
             if exp != [rec["errt"], rec["kind"], rec["nrows"], rec["out"]]:
                 mismatch += 1
                 if len(mismatch_samples) < 3:
                     mismatch_samples.append({"expected_by_A_layer": exp, "record": rec})
-        all_records += recs
         ctx.notes[f"scope{k}"] = {"scope": sc["name"], "tlc_states": r.distinct, "replayed": len(recs),
                                   "shard": f"{ctx.seed % shards} of {shards}" if shards > 1 else "all"}
-    ctx.exhaustive = "; ".join(sc["name"] + (f" [shard {ctx.seed % sc['shards']} of {sc['shards']} replayed]"
-                                             if sc.get("shards", 1) > 1 else "")
+        judge(recs, (0.0, 0.4) if k == 0 else ())
+        del recs
+    ctx.exhaustive = "; ".join(sc["name"] + (f" [design check on the whole scope; tables of shard {ctx.seed % sc['shards']} "
+                                             f"of {sc['shards']} replayed]" if sc.get("shards", 1) > 1 else "")
                                for sc in SCOPES[ctx.tier]) + " -- every dumped transition replayed"
     _old_code_design_runs(ctx)
     ctx.notes["dir1_A_layer_vs_real_mismatches"] = mismatch
@@ -616,14 +626,7 @@ def run(ctx: Ctx):
               f"the A-layer result dumped by TLC; e.g. {json.dumps(mismatch_samples[0])[:300]}")
     n_rand = 12000 if thorough else 1200
     rnd = _run_groups(ctx, random_groups(ctx, n_rand))
-    for rec in rnd:
-        rec.pop("expect", None)
-    all_records += rnd
-    for rec in all_records:
-        _count(ctx, rec)
-    for rec in (all_records[0], all_records[len(all_records) // 3], rnd[0], rnd[len(rnd) // 2], rnd[-1]):
-        ctx.sample(rec)
-    ctx.validate(TRACE, all_records, batch=50000)
+    judge(rnd, (0.0, 0.5, 1.0))
     ctx.trusted_base = ["TLC 1.8 evaluation of spec/Ranges.tla (+ Intervals.tla helpers)",
                         "harness projection DataFrame/Series <-> TLA+ tuples and the cell-value encoding (c07.py)",
                         "pandas DataFrame construction / boolean filtering in the harness",
